@@ -185,6 +185,11 @@ func runRead(c *Case) (res CaseResult) {
 		}
 	}()
 	binary := strings.Contains(res.Format, "zngio") || strings.Contains(res.Format, "vng")
+	// A text reader builds its values itself: whatever it hands out must be
+	// well formed.  (VNG, Parquet and Arrow have no validation option and
+	// are exempt: their values are judged only by the panic oracle.)
+	text := !binary && !strings.Contains(res.Format, "arrowio") && c.Mode != "fmt:vng" && c.Mode != "fmt:parquet" && c.Mode != "fmt:arrows" &&
+		!bytes.HasPrefix(data, []byte("VNG")) && !bytes.HasPrefix(data, []byte("PAR1")) && !bytes.HasPrefix(data, []byte("ARROW1"))
 	for {
 		val, err := zr.Read()
 		if err != nil {
@@ -211,24 +216,43 @@ func runRead(c *Case) (res CaseResult) {
 		// that cannot be formatted (or is structurally inconsistent with its
 		// type) is a violation.
 		strict := c.Validate && binary
-		perr, why := safeFormat(*val)
-		if perr != "" {
-			if strict {
-				res.Class = "INVALID"
-				res.Msg = "formatting a validated value panics: " + firstLine(perr)
-				res.Site = "format:" + primKind(*val) + ":" + why
-				return
-			}
-			res.FmtPan++
-		} else if strict {
-			if bad := structurallyBad(val.Type(), val.Bytes()); bad != "" {
+		if strict || text {
+			// structural check first: it names the inconsistency, which
+			// makes the signature narrow
+			if bad := safeStructurallyBad(*val); bad != "" {
 				res.Class = "INVALID"
 				res.Msg = "validated value is structurally inconsistent with its type: " + bad + " type=" + safeTypeString(val.Type()) + " bytes=" + hex.EncodeToString(val.Bytes())
 				res.Site = "struct:" + bad
+				if text {
+					res.Msg = "value delivered by a text reader is structurally inconsistent with its type: " + bad + " type=" + safeTypeString(val.Type()) + " bytes=" + hex.EncodeToString(val.Bytes())
+					res.Site = "textstruct:" + bad
+				}
 				return
 			}
 		}
+		if perr, why := safeFormat(*val); perr != "" {
+			if strict || text {
+				res.Class = "INVALID"
+				res.Msg = "formatting a validated value panics: " + firstLine(perr)
+				res.Site = "format:" + primKind(*val) + ":" + why
+				if text {
+					res.Msg = "formatting a value delivered by a text reader panics: " + firstLine(perr)
+					res.Site = "textformat:" + primKind(*val) + ":" + why
+				}
+				return
+			}
+			res.FmtPan++
+		}
 	}
+}
+
+func safeStructurallyBad(v zed.Value) (s string) {
+	defer func() {
+		if r := recover(); r != nil {
+			s = "checker-panic:" + firstLine(fmt.Sprint(r))
+		}
+	}()
+	return structurallyBad(v.Type(), v.Bytes())
 }
 
 func safeTypeString(t zed.Type) (s string) {
